@@ -24,6 +24,9 @@ theorem lowerVal_canon (v : PyVal) : lowerVal (PyVal.canon v) = lowerVal v := by
 theorem isinstance_canon (v : PyVal) (t : PyType) : (PyVal.canon v).isinstance t = v.isinstance t := by
   cases v <;> cases t <;> rfl
 
+theorem isBool_canon (v : PyVal) : (PyVal.canon v).isBool = v.isBool := by
+  cases v <;> rfl
+
 theorem sortKvs_isEmpty (l : List (Str × PyVal)) : (PyVal.sortKvs l).isEmpty = l.isEmpty := by
   have := (PM.sortKvs_perm l).length_eq
   cases l with
@@ -179,7 +182,7 @@ def customNames : Rule → List Str
 
 theorem rule_check_canon (c : Str → Obj → Except Err Unit) (o : Obj) :
     ∀ (r : Rule), (∀ n ∈ customNames r, c n (canonObj o) = c n o) → r.check c (canonObj o) = r.check c o
-  | .type f ts, _ => by simp [Rule.check, get_canonObj, isinstance_canon]
+  | .type f ts, _ => by simp [Rule.check, get_canonObj, PyVal.assertTypeOk, isinstance_canon, isBool_canon]
   | .value f table, _ => by
     simp only [Rule.check, get_canonObj]
     cases o.get f <;> rfl
